@@ -38,7 +38,7 @@ def bad_values(rng, code, a, sess):
         return [[3], [255]]
     if code in (2, 17):
         one = [2, 1] + [0] * (w - 1) + [9]
-        return [[0, 1] + [0] * w, [5, 1] + [0] * w, one + [2, 0], one + [2, 3] + [0] * w, [2]]
+        return [[0, 1] + [0] * w, [5, 1] + [0] * w, one + [2, 0], [2, 0] + one, one + [2, 3] + [0] * w, [2]]
     if code == 3:
         return [[0x20, 1] + [0] * 13 + [1]]
     if code == 7:
@@ -133,11 +133,44 @@ def coq_verdicts(cases, tag):
     return ok, out, logs
 
 
+def only_zero_length_segments(value, width):
+    """AS path value whose ONLY defect is one or more segments of length zero (types valid, exact fit)"""
+    d, zero = list(value), False
+    while d:
+        if len(d) < 2 or d[0] not in (1, 2, 3, 4):
+            return False
+        n = d[1]
+        if len(d) < 2 + n * width:
+            return False
+        zero = zero or n == 0
+        d = d[2 + n * width:]
+    return zero
+
+
+def corrupted_value(c):
+    raw = next((a['raw'] for a in c['desc']['attrs'] if a['code'] == c['code'] and 'raw' in a), None)
+    if raw is None:
+        return None
+    t = c02.walk_tlvs(bytes(raw))
+    return list(t[0][3]) if t else None
+
+
 def route_keys(exp):
     return [k[0][:5] for k in exp['ann']] + [k[:5] for k in exp['wd']]
 
 
 def judge(c, verdict, rib_after, drops_discard):
+    r = judge_outcome(c, verdict, rib_after, drops_discard)
+    if r and c['code'] in (2, 17) and c['fault'] == 'value':
+        v = corrupted_value(c)
+        width = 4 if (c['code'] == 17 or c['sess'].asn4) else 2
+        if v is not None and only_zero_length_segments(v, width):
+            return (f'C08:as-path-zero-length-segment-accepted:{c["code"]}',
+                    'an AS path segment of length zero (RFC 7606 7.2: malformed) is accepted: ' + r[1])
+    return r
+
+
+def judge_outcome(c, verdict, rib_after, drops_discard):
     """-> (sig, what) when the observable outcome is none of the RFC 7606 approaches, else None"""
     code, fault, o, exp = c['code'], c['fault'], c['impl'], c['exp']
     tag = f'{code}:{fault}'
@@ -293,13 +326,13 @@ def check(tier, seed):
                 f'pinned={c02.model_canon(ev["pinned"][i]) if ev["pinned"][i] else None}')[:3000]
 
     neither = sorted(set(corr_fixed) & set(corr_pinned))
-    run.obligation(f'correspondence: Message.unpack = Model_Update (repaired or pinned generation) on {len(cases)} corrupted bodies',
-                   not neither, f'{len(neither)} disagree with both; first: {first(neither)}')
-    run.obligation(f'correspondence with the REPAIRED model dec_update on {len(cases)} corrupted bodies (the theorems of Prop_C08 are about it)',
-                   not corr_fixed, f'{len(corr_fixed)} disagreements ({len(corr_fixed) - len(neither)} match the pinned model); first: {first(corr_fixed)}')
-    run.obligation(f'property oracle: every body with a malformed attribute (Spec_Wire verdict) ends in reset 3/x, treat-as-withdraw or '
-                   f'(discard class) the rest unchanged, on the JSON event, the objects and Adj-RIB-In; {len(cases)} bodies',
-                   not bad, f'{len(bad)} failing; first: {bad[0] if bad else ""}'[:2500])
+    run.obligation('correspondence: Message.unpack = Model_Update (repaired or pinned generation) on every corrupted body',
+                   not neither, f'{len(cases)} bodies; {len(neither)} disagree with both; first: {first(neither)}')
+    run.obligation('correspondence with the REPAIRED model dec_update on every corrupted body (the theorems of Prop_C08 are about it)',
+                   not corr_fixed, f'{len(cases)} bodies; {len(corr_fixed)} disagreements ({len(corr_fixed) - len(neither)} match the pinned model); first: {first(corr_fixed)}')
+    run.obligation('property oracle: every body with a malformed attribute (Spec_Wire verdict) ends in reset 3/x, treat-as-withdraw or '
+                   '(discard class) the rest unchanged, on the JSON event, the objects and Adj-RIB-In',
+                   not bad, f'{len(cases)} bodies; {len(bad)} failing; first: {bad[0] if bad else ""}'[:2500])
 
     seen = {}
     for i, sig, what in bad:
@@ -329,3 +362,42 @@ def check(tier, seed):
     if run.broken() and not run.failing:
         run.coverage['search'] = f'{len(cases)} corrupted bodies judged by the RFC 7606 oracle; none failed the property itself'
     return run.finish(checker_cmd='make -C coq props/Prop_C08.vo && coqc -Q coq ExaV coq/props/Prop_C08.v (Print Assumptions)')
+
+
+def replay(path):
+    """./check C08 --replay <file>: decode the recorded body again, judge it on its own (no base description):
+    exit 1 when an attribute the reference calls malformed is reported next to announced routes"""
+    import json
+
+    data = json.load(open(path))
+    case = data.get('case', data)
+    run = Run('C08', 'replay', 0)
+    common.standard_build(run, ['T5'])
+    sess = next(s for s in c02.make_sessions() if s.key == case['session'])
+    body = bytes.fromhex(case['body_hex'])
+    o = c02.impl_decode(body, sess)
+    rig = c02.RibRig(sess)
+    rig.feed(o)
+    c = {'sess': sess, 'body': body, 'impl': o}
+    ok, ev, _ = c02.eval_two_pass([c], 'c08r', False)
+    okv, verdicts, _ = coq_verdicts([(sess, body)], 'c08rv')
+    v = verdicts[0] or []
+    ic = c02.impl_canon(o)
+    agree_fixed = bool(ev['fixed'][0]) and c02.model_canon(ev['fixed'][0]) == ic
+    agree_pinned = bool(ev['pinned'][0]) and c02.model_canon(ev['pinned'][0]) == ic
+    malformed = [v[k] for k in range(0, len(v) - 1, 2) if v[k + 1] == 1] if v[:1] not in ([-9], [-8]) else []
+    block_bad = v[:1] == [-9]
+    failing = None
+    if block_bad or malformed:
+        if o['kind'] == 'pyerror' or (o['kind'] == 'notify' and o['code'][0] != 3):
+            failing = 'not an UPDATE Message Error reset'
+        elif o['kind'] == 'upd' and (o['ann'] or 'announce' in o.get('json', {}) or rig.content()):
+            kept = [m for m in malformed if m in o['attrs']]
+            strict = [m for m in malformed if APPROACH.get(m, 'U') in ('W', 'R')]
+            if block_bad or kept or strict:
+                failing = f'routes announced although the block is malformed (block={block_bad}, malformed codes {malformed}, still reported {kept})'
+    print(json.dumps({'session': sess.key, 'body': body.hex(), 'verdict': v, 'observed': str(ic)[:1500],
+                      'adj_rib_in_keys': [str(k) for k in rig.content()], 'matches_repaired_model': agree_fixed,
+                      'matches_pinned_model': agree_pinned, 'property': failing or 'holds'}, indent=1))
+    common.cleanup()
+    return 1 if failing or not (agree_fixed or agree_pinned) else 0
